@@ -294,7 +294,12 @@ func fieldAlwaysInitialised(c *Ctx, x ssa.Value) (string, bool) {
 						if y.Field == fieldIdx {
 							for _, rr := range *y.Referrers() {
 								if st, ok := rr.(*ssa.Store); ok && st.Addr == y {
-									if _, isCall := core.Strip(st.Val).(*ssa.Call); isCall {
+									sv := core.Strip(st.Val)
+									if ex, isEx := sv.(*ssa.Extract); isEx {
+										// one result of a call with several results (v, err := f())
+										sv = ex.Tuple
+									}
+									if _, isCall := sv.(*ssa.Call); isCall {
 										stored = true
 									}
 								}
